@@ -223,7 +223,9 @@ class Interp:
         # in spec mode no assumptions are added silently, except well-typedness of heap reads
         base = strip_opt(v.ty)
         if is_ref(base) and not st.in_old:
-            inv = z3.And(st.alloc[v.term], st.cls_is(v.term, base[1]))
+            inv = st.cls_is(v.term, base[1])
+            if REG.get(base[1]).kind == "list":
+                inv = z3.And(inv, z3.Select(st.hget("$len", z3.IntSort()), v.term) >= 0)
             st.assume(z3.Or(v.term == NULL, inv) if is_opt(v.ty) else z3.And(v.term != NULL, inv))
 
     def write_field(self, st, obj, attr, fty, val):
@@ -1073,8 +1075,9 @@ class Interp:
                     calls.call_repo(self, st, fs, [obj, val], {}, node)
                     return
             raise Unsupported("store to undeclared attribute %s.%s (line %s)" % (base[1], attr, getattr(node, "lineno", "?")))
-        if val.extra and val.extra[0] == "emptydict" and val.term is None and is_ref(strip_opt(fty)):
-            val = self.materialize_empty(st, val, strip_opt(fty)[1])
+        if val.extra and val.extra[0] in ("emptydict", "emptylist", "emptyset") and val.term is None and is_ref(strip_opt(fty)):
+            cls_ = strip_opt(fty)[1]
+            val = self.new_list(st, cls_) if REG.get(cls_).kind == "list" else self.new_dict(st, cls_)
         self.write_field(st, obj, attr, fty, val)
 
     def get_item(self, st, obj, idx, node=None):
@@ -1235,9 +1238,15 @@ class Interp:
             return
         v = self.eval(st, s.value)
         # an annotated empty container gets its class from the annotation
-        if v.extra and v.extra[0] in ("emptydict", "emptylist") and v.term is None:
+        if v.extra and v.extra[0] in ("emptydict", "emptylist", "emptyset") and v.term is None:
             from . import calls
             ty = calls.annotation_type(self, st, s.annotation)
+            if isinstance(s.target, ast.Attribute):
+                ob_ = self.eval(st, s.target.value)
+                if is_ref(strip_opt(ob_.ty)):
+                    fty_ = self.field_type(strip_opt(ob_.ty)[1], s.target.attr)
+                    if fty_ is not None:
+                        ty = fty_
             if ty is not None and is_ref(strip_opt(ty)):
                 cls = strip_opt(ty)[1]
                 v = self.new_dict(st, cls) if REG.get(cls).kind != "list" else self.new_list(st, cls)
